@@ -16,6 +16,7 @@ from automata.base.exceptions import RejectionException
 from automata.fa.dfa import DFA
 from automata.fa.nfa import NFA
 
+from harness import fa_history as FH
 from harness import fa_reuse as FR
 from harness import fa_special as FS
 from harness import gen
@@ -39,7 +40,19 @@ RULE = ("cases = (valid DFA or NFA, word); bounded-exhaustive small automata × 
         "'\\1', '${x}', …) + longer words, and shaped random automata over such alphabets with snippets spliced in "
         "first / middle / last position; every reading API is judged directly against the textbook run of the plain "
         "constructor arguments and the closed form (str methods only), any exception other than RejectionException is "
-        "a crash; a case is non-trivial when the word is non-empty and the automaton has ≥2 "
+        "a crash; the readers under the global options (harness/fa_history.py): every valid definition — λ corpus, "
+        "bounded-exhaustive slice of 1- and 2-state automata, shaped random λ-heavy NFAs / λ-cycles / junk rows / partial "
+        "DFAs / tries — constructed under all four combinations of should_validate_automata × allow_mutable_automata and "
+        "read under the same and under another combination; readings interleaved with the other public calls on ONE "
+        "kept-alive object: programs of readings (the four APIs in a random order) and other public methods (DFA: iter() "
+        "created / abandoned / consumed, len, cardinality, words_of_length, count_words_of_length, random_word, "
+        "minimum/maximum_word_length, isempty, isfinite, successor(s) / predecessor(s), minify, complement, set operations, "
+        "comparisons, copy, pickle, to_partial/to_complete, repr, hash, iter_transitions, validate, clear_cache, "
+        "NFA.from_dfa, an abandoned read_input_stepwise; NFA: eliminate_lambda, reverse, kleene_star, option, union / "
+        "concatenate / intersection / shuffle product / quotients, ==, DFA.from_nfa, copy, pickle, …; exceptions of those "
+        "calls are only recorded), every reading judged against the textbook run of the definition captured at "
+        "construction and the four APIs against each other, a failing program is cut, shrunk and re-run on a fresh "
+        "object; a case is non-trivial when the word is non-empty and the automaton has ≥2 "
         "states; distinct = distinct (definition, word) pairs")
 ASSUMPTIONS = [
     "state names are hashable values; a definition with a state literally named None is refused by validate() since "
@@ -56,7 +69,12 @@ EXPLANATION = ("Theorems C01_* tie the model's reader to Mathlib's DFA/εNFA acc
                "automaton and every word; this run ties the model to the code by differential execution.  The symbols of "
                "the model are abstract; that the real reader treats EVERY character as just a symbol (also the ones that "
                "are special to str.format, %-formatting, re, … when the input is spliced into a message on the rejection "
-               "path) is covered by the special-character family, which evaluates the property itself on the real code.")
+               "path) is covered by the special-character family, which evaluates the property itself on the real code.  "
+               "The model has neither global options nor object identity: that the real readers do not depend on "
+               "should_validate_automata / allow_mutable_automata, nor on what other public methods were called on the same "
+               "object before (per-object caches, generators started and abandoned), is covered by the option and "
+               "call-history families, which again evaluate the property itself (textbook run of the definition captured at "
+               "construction) on the real code.")
 
 
 NONSTR = [5, None, ("a",), b"a", 1.5, frozenset(), ("a", "b"), 0, True]
@@ -592,6 +610,366 @@ def special_symbol_family(ctx: Ctx, count: int):
                           mutable=mutable)
 
 
+# ------------------------------------------------------------------ round 6: global options; readings interleaved with other calls
+import contextlib
+
+
+@contextlib.contextmanager
+def library_options(validate: bool, mutable: bool):
+    """automata.base.config.should_validate_automata / allow_mutable_automata for the duration of the block; the
+    values found on entry (the defaults) are restored on every exit, exceptions included."""
+    import automata.base.config as global_config
+    old = (global_config.should_validate_automata, global_config.allow_mutable_automata)
+    global_config.should_validate_automata, global_config.allow_mutable_automata = bool(validate), bool(mutable)
+    try:
+        yield
+    finally:
+        global_config.should_validate_automata, global_config.allow_mutable_automata = old
+
+
+def build_under(kind: str, kw: dict, opt):
+    """Construct from a private deep copy of the plain arguments under the options `opt`; the definition the object
+    must follow from now on is captured here (FR.Defn, another deep copy), whatever is done with the object later."""
+    import copy
+    defn = FR.Defn(kind, kw)
+    mine = copy.deepcopy(kw)
+    with library_options(*opt):
+        m = (NFA if kind == "NFA" else DFA)(**mine)
+    return m, defn, (enc_nfa if kind == "NFA" else enc_dfa)(defn)
+
+
+def judge_reading(m, is_nfa: bool, defn, w: str, order: str = "airs"):
+    """One word through the four reading APIs (called in the given order), each judged against the textbook run of
+    `defn`, and against each other.  Returns (textbook verdict, textbook trace, list of what is wrong)."""
+    rtr, racc = (ref_nfa if is_nfa else ref_dfa)(defn, w)
+    want = ("ok", racc)
+    got = {}
+    for api in order:
+        if api == "a":
+            got["a"] = _grab(lambda: m.accepts_input(w))
+        elif api == "i":
+            got["i"] = _grab(lambda: w in m)
+        elif api == "r":
+            got["r"] = _grab(lambda: m.read_input(w))
+        else:
+            got["s"] = _stepwise(m, w)
+            if not is_nfa:
+                got["s2"] = _stepwise(m, w, ignore_rejection=True)
+    acc, isin, read, (steps, end) = got["a"], got["i"], got["r"], got["s"]
+    wrong = []
+    if acc != want:
+        wrong.append(f"accepts_input {_show(acc)}, the textbook verdict is {racc}")
+    if isin != want:
+        wrong.append(f"`in` {_show(isin)}, the textbook verdict is {racc}")
+    if acc[0] == "ok" and isin[0] == "ok" and acc[1] != isin[1]:
+        wrong.append(f"accepts_input ({acc[1]!r}) and `in` ({isin[1]!r}) disagree on the same word")
+    if racc and not (read[0] == "ok" and read[1] == rtr[-1]):
+        wrong.append(f"read_input {_show(read)}, the textbook run ends in {rtr[-1]!r}")
+    if not racc and read != ("rej",):
+        wrong.append(f"read_input {_show(read)}, the word must be rejected with RejectionException")
+    if steps != rtr:
+        wrong.append(f"read_input_stepwise yielded {steps!r}, the textbook run is {rtr!r}")
+    if end[0] != ("ok" if racc else "rej"):
+        wrong.append(f"read_input_stepwise ended: {_show(end) if end[0] != 'ok' else 'without rejection'}"
+                     f" ({'accepted' if racc else 'rejected'} word)")
+    if not is_nfa:
+        steps2, end2 = got["s2"]
+        if steps2 != rtr or end2[0] != "ok":
+            wrong.append("read_input_stepwise(ignore_rejection=True): "
+                         + (_show(end2) if end2[0] != "ok" else f"yielded {steps2!r}, the textbook run is {rtr!r}"))
+    return racc, rtr, wrong
+
+
+class _NoLambda:
+    """The definition with its empty-string moves removed (only to classify a case: do the λ-moves matter?)."""
+
+    def __init__(self, defn):
+        self.transitions = {q: {a: ts for a, ts in row.items() if a != ""} for q, row in defn.transitions.items()}
+        self.initial_state, self.final_states = defn.initial_state, defn.final_states
+
+
+@guarded
+def check_options(ctx: Ctx, built, kind: str, kw: dict, w: str, build_opt, read_opt, origin: str, shape: str,
+                  with_model: bool = False):
+    """The property for one (definition, word) with the object CONSTRUCTED under build_opt and READ under read_opt."""
+    m, defn, enc3 = built
+    is_nfa = kind == "NFA"
+    with library_options(*read_opt):
+        racc, rtr, wrong = judge_reading(m, is_nfa, defn, w)
+    ctx.stat("options:" + origin)
+    ctx.stat("options:built_under_" + FH.option_name(build_opt))
+    ctx.stat("options:read_under_" + ("the_same_options" if tuple(read_opt) == tuple(build_opt)
+                                      else "other_options_than_built"))
+    ctx.stat(f"options:{kind.lower()}_{shape}")
+    ctx.stat("options:" + ("accepted" if racc else "rejected"))
+    if any(c not in kw["input_symbols"] for c in w):
+        ctx.stat("options:word_with_foreign_symbol")
+    if is_nfa:
+        if any(row.get("") for row in defn.transitions.values()):
+            ctx.stat("options:nfa_has_lambda_moves")
+            if ref_nfa(_NoLambda(defn), w)[0] != rtr:
+                ctx.stat("options:lambda_moves_matter_for_the_configurations")
+            if ref_nfa(_NoLambda(defn), w)[1] != racc:
+                ctx.stat("options:lambda_moves_matter_for_the_verdict")
+    elif any(c is None for c in rtr):
+        ctx.stat("options:dfa_run_hits_missing_transition")
+    rp = dict(op="options", kind=kind, kw=repr(kw), word=w, build=list(build_opt), read=list(read_opt), shape=shape)
+    key = ("O", kind, rp["kw"], tuple(build_opt), tuple(read_opt), w)
+    if wrong:
+        ctx.case(key)
+        ctx.stat("options:FAIL")
+        ctx.prop_fail(f"{kind}(**{kw!a}) constructed under [{FH.option_name(build_opt)}], read under "
+                      f"[{FH.option_name(read_opt)}], word {w!a}: " + "; ".join(wrong),
+                      dict(rp, textbook_accepts=racc), None)
+        return
+    if with_model:
+        with library_options(*read_opt):
+            check_one(ctx, m, w, is_nfa, origin, enc3=enc3, defn=defn,
+                      extra=(f"constructed under [{FH.option_name(build_opt)}], read under "
+                             f"[{FH.option_name(read_opt)}]: ", rp))
+    else:
+        ctx.case(key if len(w) >= 1 and len(kw["states"]) >= 2 else None)
+        ctx.stat(origin)
+
+
+def options_one(ctx: Ctx, kind: str, kw: dict, shape: str, words, origin: str, k: int):
+    """One valid definition under all four combinations of the two global options."""
+    rng = ctx.rng
+    for j, opt in enumerate(FH.OPTION_COMBOS):
+        try:
+            built = build_under(kind, kw, opt)
+        except BaseException as e:  # noqa: BLE001 - a VALID definition must be constructible under every option
+            if isinstance(e, KeyboardInterrupt):
+                raise
+            ctx.case(None)
+            ctx.prop_fail(f"{kind}(**{kw!a}): constructing this valid definition under [{FH.option_name(opt)}] raised "
+                          f"{type(e).__name__}", dict(op="options", kind=kind, kw=repr(kw), word="", build=list(opt),
+                                                      read=list(opt), shape=shape), None)
+            continue
+        for i, w in enumerate(words):
+            check_options(ctx, built, kind, kw, w, opt, opt, origin, shape, with_model=((k + i + j) % 6 == 0))
+        # the options are switched between construction and reading (same object, already read above)
+        other = FH.OPTION_COMBOS[(j + 1 + rng.randrange(3)) % 4]
+        for w in words[:2]:
+            check_options(ctx, built, kind, kw, w, opt, other, origin, shape)
+
+
+LAMBDA_CORPUS = [
+    # (kw, words): the λ-moves decide the verdict / the configurations
+    (dict(states={0, 1}, input_symbols={"a"}, transitions={0: {"": {1}}, 1: {"a": {1}}}, initial_state=0,
+          final_states={1}), ["", "a", "aa", "#"]),
+    (dict(states={0, 1, 2}, input_symbols={"a", "b"}, transitions={0: {"a": {1}}, 1: {"": {2}}, 2: {"b": {0}, "": {1}}},
+          initial_state=0, final_states={2}), ["a", "ab", "aba", "", "b", "abab"]),
+    (dict(states={"s", "x", "y", "f"}, input_symbols={"a", "b"},
+          transitions={"s": {"": {"x", "y"}}, "x": {"a": {"x"}, "": {"f"}}, "y": {"b": {"y"}, "": {"f"}}, "f": {}},
+          initial_state="s", final_states={"f"}), ["", "a", "aa", "b", "bb", "ab", "a#"]),
+    (dict(states={0, 1, 2}, input_symbols={"a"}, transitions={0: {"": {1}}, 1: {"": {2}}, 2: {"": {0}, "a": {2}}},
+          initial_state=0, final_states={1}), ["", "a", "aaa"]),
+    (dict(states={("q", 0), ("q", 1)}, input_symbols={"0", "1"},
+          transitions={("q", 0): {"0": {("q", 0)}, "": {("q", 1)}}, ("q", 1): {"1": {("q", 1)}}},
+          initial_state=("q", 0), final_states={("q", 1)}), ["", "0", "1", "01", "0011", "10"]),
+]
+
+
+def options_family(ctx: Ctx, count: int):
+    """(A) of round 6: the property does not mention should_validate_automata / allow_mutable_automata, so verdicts,
+    `in`, read_input and the stepwise configurations of a VALID definition are the same under all four combinations."""
+    rng = ctx.rng
+    k = 0
+    for kw, words in LAMBDA_CORPUS:
+        k += 1
+        options_one(ctx, "NFA", kw, "corpus_lambda", words, "options_corpus", k)
+    # bounded-exhaustive slice: 1-state NFAs with ε over {a,b}; 1-state DFAs; every 7th 2-state NFA over {a} with ε
+    for n0 in gen.all_nfas(1, ("a", "b")):
+        k += 1
+        options_one(ctx, "NFA", FR.nfa_kw(rng, n0, "set"), "exhaustive_1_state", ["", "a", "ab", "#"], "options_exhaustive", k)
+    for d0 in gen.all_dfas(1, ("a", "b")):
+        k += 1
+        options_one(ctx, "DFA", FR.dfa_kw(d0), "exhaustive_1_state", ["", "a", "ab", "b#"], "options_exhaustive", k)
+    for i, n0 in enumerate(gen.all_nfas(2, ("a",))):
+        if i % 7 == 3:
+            k += 1
+            options_one(ctx, "NFA", FR.nfa_kw(rng, n0, "set"), "slice_2_states", ["", "a", "aa", "a#"], "options_exhaustive", k)
+    ctx.exhaustive("all four combinations of should_validate_automata × allow_mutable_automata (construction and reading): "
+                   "all 1-state NFAs with ε over {a,b}, all 1-state DFAs over {a,b}, every 7th 2-state NFA with ε over {a} "
+                   "× 4 words incl. a foreign symbol")
+    # shaped random: the generators of the default-configuration families, rebuilt from plain containers
+    for _ in range(count):
+        k += 1
+        kind = "NFA" if rng.random() < 0.65 else "DFA"
+        kw, shape, _closed = FH.rand_definition(rng, kind, lambda_heavy=rng.random() < 0.6)
+        sy = sorted(kw["input_symbols"])
+        words = FH.words_of_interest(rng, kind, kw, 4)[:6] + [gen.rand_word(rng, sy, 8, gen.foreign_symbol(sy))]
+        options_one(ctx, kind, kw, shape, words, "options_random", k)
+
+
+HISTORY_CALL_TIMEOUT_S = 3.0
+
+
+def _watchdog(f):
+    """_grab with a time limit: a public call of a history that does not return (on a changed tree a loop may have
+    lost its exit) is recorded as ("err", "CallTimeout", …) like any other exception and the program goes on."""
+    import signal
+    import threading
+
+    from harness.common import CallTimeout
+    if threading.current_thread() is not threading.main_thread():
+        return _grab(f)
+
+    def alarm(signum, frame):
+        raise CallTimeout()
+    old = signal.signal(signal.SIGALRM, alarm)
+    signal.setitimer(signal.ITIMER_REAL, HISTORY_CALL_TIMEOUT_S)
+    try:
+        return _grab(f)
+    finally:
+        signal.setitimer(signal.ITIMER_REAL, 0)
+        signal.signal(signal.SIGALRM, old)
+
+
+def exec_history(scenario):
+    """Run one history of harness/fa_history.py on ONE kept-alive object.  Returns a dict: events (one per step: a
+    recorded call, or a judged reading), the object, its definition as captured at construction."""
+    kind, options, kw, other_kw, steps = scenario
+    is_nfa = kind == "NFA"
+    out = dict(events=[], m=None, defn=None, enc3=None, build_error=None)
+    try:
+        m, defn, enc3 = build_under(kind, kw, options)
+        other = build_under(kind, other_kw, (True, False))[0] if other_kw is not None else None
+    except BaseException as e:  # noqa: BLE001
+        if isinstance(e, KeyboardInterrupt):
+            raise
+        out["build_error"] = type(e).__name__
+        return out
+    out.update(m=m, defn=defn, enc3=enc3)
+    kept = []          # abandoned generators that stay referenced until the end of the program
+    last_word = next((s[1] for s in steps if s[0] == "read"), "")
+    n_calls = 0
+    for i, step in enumerate(steps):
+        if step[0] == "read":
+            _, w, order = step
+            racc, rtr, wrong = judge_reading(m, is_nfa, defn, w, order)
+            out["events"].append(dict(i=i, kind="read", word=w, racc=racc, wrong=wrong, after_calls=n_calls,
+                                      missing=(not is_nfa and any(c is None for c in rtr))))
+            last_word = w
+            continue
+        n_calls += 1
+        r = _watchdog(lambda: FH.do_call(m, other, step, kept))
+        ev = dict(i=i, kind="call", label=FH.call_label(step), outcome=r[0], exn=(r[1] if r[0] == "err" else None),
+                  wrong=[])
+        if r[0] == "ok" and step[0] in ("copy", "pickle") and isinstance(r[1], (DFA, NFA)):
+            # an object with the same definition: it must read like the original
+            _, _, wrong = judge_reading(r[1], is_nfa, defn, last_word)
+            ev["wrong"] = [("the copy() of the object: " if step[0] == "copy" else "the object after a pickle round trip: ") + x
+                           for x in wrong]
+            ev["word"] = last_word
+        out["events"].append(ev)
+    return out
+
+
+def history_failure(scenario):
+    """First event of the history where the property fails (None: it holds along the whole program)."""
+    res = exec_history(scenario)
+    if res["build_error"] is not None:
+        return None
+    return next((ev for ev in res["events"] if ev["wrong"]), None)
+
+
+def shrink_history(scenario, ev):
+    """Cut the program after the failing step, then drop every earlier step that is not needed for the failure
+    (greedy, each candidate re-run on a fresh object).  Returns (scenario, event) of a confirmed failure, or None
+    when the failure does not show again on a fresh object."""
+    kind, options, kw, other_kw, steps = scenario
+    steps = list(steps[: ev["i"] + 1])
+    cur = (kind, options, kw, other_kw, steps)
+    ev2 = history_failure(cur)
+    if ev2 is None or ev2["i"] != len(steps) - 1:
+        return None if ev2 is None else ((kind, options, kw, other_kw, steps[: ev2["i"] + 1]), ev2)
+    j = 0
+    while j < len(steps) - 1:
+        cand = steps[:j] + steps[j + 1:]
+        e = history_failure((kind, options, kw, other_kw, cand))
+        if e is not None and e["i"] == len(cand) - 1:
+            steps, ev2 = cand, e
+        else:
+            j += 1
+    return (kind, options, kw, other_kw, steps), ev2
+
+
+def describe_history(scenario, ev) -> str:
+    kind, options, kw, other_kw, steps = scenario
+    calls = [FH.call_label(s) + repr(tuple(s[1:])) for s in steps[: ev["i"] + (0 if ev["kind"] == "read" else 1)]
+             if s[0] != "read"]
+    reads = sum(1 for s in steps[: ev["i"]] if s[0] == "read")
+    opt = "" if tuple(options) == (True, False) else f" [constructed under {FH.option_name(options)}]"
+    return (f"{kind}(**{kw!a}){opt}: after the public calls {', '.join(calls) if calls else '(none)'}"
+            + (f" and {reads} earlier reading(s)" if reads else "") + f" on the same object, word {ev.get('word', '')!a}: "
+            + "; ".join(ev["wrong"]))
+
+
+@guarded
+def history_one(ctx: Ctx, scenario, shape: str, closed, origin: str):
+    kind, options, kw, other_kw, steps = scenario
+    is_nfa = kind == "NFA"
+    res = exec_history(scenario)
+    rp = dict(op="history", kind=kind, scenario=repr(scenario))
+    ctx.stat("history:programs")
+    ctx.stat(f"history:{kind.lower()}_{shape}")
+    if tuple(options) != (True, False):
+        ctx.stat("history:constructed_under_" + FH.option_name(options))
+    if res["build_error"] is not None:
+        ctx.case(None)
+        ctx.prop_fail(f"{kind}(**{kw!a}): constructing this valid definition under [{FH.option_name(options)}] raised "
+                      f"{res['build_error']}", rp, None)
+        return
+    kwrepr = repr(kw)
+    failed = None
+    for ev in res["events"]:
+        if ev["kind"] == "call":
+            ctx.stat("history:call_" + ev["label"])
+            if ev["outcome"] != "ok":
+                ctx.stat("history:call_raised_" + str(ev["exn"]))
+        else:
+            w = ev["word"]
+            if closed is not None and (w in closed) != ev["racc"]:
+                raise AssertionError(f"the two oracles disagree on {w!a}: finite language {closed}, textbook run {ev['racc']}")
+            ctx.case(("H", kind, kwrepr, repr(steps[: ev["i"] + 1])) if w and len(kw["states"]) >= 2 else None)
+            ctx.stat(origin)
+            ctx.stat("history:reading_" + ("accepted" if ev["racc"] else "rejected"))
+            ctx.stat("history:reading_after_%s_other_calls" % ("0" if ev["after_calls"] == 0 else "1-3" if ev["after_calls"] <= 3
+                                                             else "4-8" if ev["after_calls"] <= 8 else "9+"))
+            if any(c not in kw["input_symbols"] for c in w):
+                ctx.stat("history:word_with_foreign_symbol")
+            if ev["missing"]:
+                ctx.stat("history:dfa_run_hits_missing_transition")
+        if ev["wrong"] and failed is None:
+            failed = ev
+    if failed is not None:
+        ctx.stat("history:FAIL")
+        small = shrink_history(scenario, failed) if ctx.n_prop_fails < 6 else None
+        if small is not None:
+            sc, ev = small
+            ctx.prop_fail(describe_history(sc, ev), dict(rp, scenario=repr(sc), confirmed_on_fresh_object=True), None)
+        else:
+            ctx.prop_fail(describe_history(scenario, failed)
+                          + ("" if ctx.n_prop_fails >= 6 else " (seen once; a fresh object running the same program did not "
+                             "show it: the failure depends on more than this program)"), rp, None)
+        return
+    # the model on the same kept-alive object, after the whole program
+    reads = [s[1] for s in steps if s[0] == "read"]
+    if reads:
+        check_one(ctx, res["m"], reads[-1], is_nfa, origin + ":model_after_program", enc3=res["enc3"], defn=res["defn"],
+                  extra=("after a program of other public calls on the same object: ", rp))
+
+
+def history_family(ctx: Ctx, count: int):
+    """(B) of round 6: programs on one kept-alive object that interleave the four reading APIs with the other public
+    methods of the class; every reading is judged against the definition captured at construction."""
+    for _ in range(count):
+        scenario, shape, closed = FH.rand_history(ctx.rng)
+        history_one(ctx, scenario, shape, closed, "interleaved_public_calls")
+
+
 # ------------------------------------------------------------------ big cases (oracle only)
 def big_chain_nfa(n: int, cycle: bool):
     """0 -ε-> 1 -ε-> … -ε-> n-1 (-ε-> 0 if cycle); even states loop on 'a'; n-1 reads 'b' into 0; F = {n-1}."""
@@ -770,6 +1148,9 @@ def run(ctx: Ctx):
     target_collection_family(ctx, ctx.budget(300, 6000))
     # round 5 (again after the older families)
     special_symbol_family(ctx, ctx.budget(400, 12000))
+    # round 6 (again after the older families)
+    options_family(ctx, ctx.budget(220, 6000))
+    history_family(ctx, ctx.budget(500, 12000))
 
 
 def replay(ctx: Ctx, path: str) -> int:
@@ -785,6 +1166,20 @@ def replay(ctx: Ctx, path: str) -> int:
         mutable = bool(rp.get("mutable", False))
         check_special(ctx, build_special(rp["kind"], kw, mutable), rp["kind"], kw, rp["word"], "replay",
                       rp.get("lang", "?"), mutable=mutable)
+    elif rp.get("op") == "options":
+        kw = eval(rp["kw"], {"frozenset": frozenset})  # repr() of plain constructor arguments (harness/fa_history.py)
+        b_opt, r_opt = tuple(rp["build"]), tuple(rp["read"])
+        try:
+            built = build_under(rp["kind"], kw, b_opt)
+        except Exception as e:  # noqa: BLE001
+            built = None
+            ctx.prop_fail(f"{rp['kind']}(**{kw!a}): constructing this valid definition under [{FH.option_name(b_opt)}] "
+                          f"raised {type(e).__name__}", rp, None)
+        if built is not None:
+            check_options(ctx, built, rp["kind"], kw, rp["word"], b_opt, r_opt, "replay", rp.get("shape", "?"),
+                          with_model=True)
+    elif rp.get("op") == "history":
+        history_one(ctx, eval(rp["scenario"], {"frozenset": frozenset}), "replay", None, "replay")
     elif rp.get("op") == "big":
         build, is_nfa = BIG[rp["name"]]
         check_big(ctx, rp["name"], build, [rp["word"]] if "word" in rp else BIG_WORDS, is_nfa)
